@@ -63,9 +63,19 @@ def bcast (dim : Nat) (v : Vec) : Vec :=
 def diagFormSqrtprec (f : Form) (dim : Nat) (v : Vec) : Option Mat :=
   ((bcast dim v).mapM (diagSqrtprec f)).map diag
 
-/-- `np.allclose(R, np.tril(R))` on exact data: every entry above the diagonal is zero. -/
+def absQ (q : Rat) : Rat := if q < 0 then -q else q
+
+/-- `np.count_nonzero(np.triu(R, 1)) == 0` (code since 147a320): every entry above the diagonal is exactly zero. -/
 def isLowerTri (R : Mat) : Bool :=
   (List.range R.length).all (fun i => (List.range (ncols R)).all (fun j => j ≤ i || entry R i j == 0))
+
+/-- absolute tolerance of `np.allclose` (`atol = 1e-8`; the relative part vanishes against the zeros of `tril`) -/
+def allcloseAtol : Rat := 1 / 100000000
+
+/-- the test used BEFORE 147a320, `np.allclose(R, np.tril(R))`: above-diagonal entries `≤ 1e-8` in absolute
+    value — a tolerance test (kept for the witness theorem of the repaired defect only). -/
+def isLowerTriAllclose (R : Mat) : Bool :=
+  (List.range R.length).all (fun i => (List.range (ncols R)).all (fun j => j ≤ i || absQ (entry R i j) ≤ allcloseAtol))
 
 /-- Forward substitution as LAPACK `trtrs`/`solve_triangular(lower=True)` performs it: only the
     entries `L i j` with `j ≤ i` are read.  `fwdXs L b k` is the list `[x₀, …, x_{k-1}]`. -/
